@@ -54,6 +54,7 @@ type Report struct {
 	VacuityIssues  []string
 	SharedWrites   map[string]int
 	OracleCases    int
+	SecondOpinions int
 	ResolveErrorsAgreed int
 	ResolveRefused      int
 	Explanation    string
@@ -85,6 +86,7 @@ func (r *Report) AddSkel(sk *Skeleton, s *SkelResult) {
 	r.VerdictSat += s.VerdictSat
 	r.VerdictUnknown += s.VerdictUnknown
 	r.Validated += s.Validated
+	r.SecondOpinions += s.SecondOpinion
 	r.ValidateSkip += s.ValidateSkip
 	r.SolverTime += s.Solver.Time
 	r.SolverQueries += s.Solver.Queries
@@ -305,6 +307,7 @@ func (r *Report) writeEvidence(wall float64, violations, inconclusive int) {
 		"oracle_cases_checked":          r.OracleCases,
 		"findings_reproduced":           len(r.Findings),
 		"exhaustive":                    false,
+		"verdicts_decided_by_second_solver": r.SecondOpinions,
 		"resolve_errors_agreed":         r.ResolveErrorsAgreed,
 		"resolve_refused_as_documented": r.ResolveRefused,
 		"workers":                       runtime.NumCPU(),
@@ -351,7 +354,7 @@ func (cc *CheckCtx) Thorough() bool { return cc.Tier == "thorough" }
 // RunValidateFamily explores every skeleton with the Validate harness and adds the results.
 func (cc *CheckCtx) RunValidateFamily(r *Report, skels []*Skeleton, opt VOptions) {
 	opt.Property = cc.ID
-	results := RunSkeletons(cc.P, skels, cc.Workers, cc.Timeout, func(w *Worker, sk *Skeleton) *SkelResult {
+	skels, results := RunSkeletons(cc.P, skels, cc.Workers, cc.Timeout, func(w *Worker, sk *Skeleton) *SkelResult {
 		return w.RunValidateSkeleton(sk, opt)
 	})
 	for i, s := range results {
